@@ -100,8 +100,15 @@ Lemma units_set_audit s a b c e f : units (set_audit s a b c e f) = units s. Pro
 Lemma units_with_audit s a b c e f : units (with_audit s a b c e f) = units s. Proof. reflexivity. Qed.
 Lemma units_join_game s : units (join_game s) = units s. Proof. reflexivity. Qed.
 Lemma units_reset_timeouts d s : units (reset_timeouts d s) = units s. Proof. reflexivity. Qed.
+Lemma units_set_pexp s x : units (set_pexp s x) = units s. Proof. reflexivity. Qed.
+Lemma units_touch d s t : units (touch d s t) = units s. Proof. reflexivity. Qed.
+Lemma units_touch_if b d s t : units (touch_if b d s t) = units s. Proof. destruct b; reflexivity. Qed.
+Lemma units_enable_credit d s : units (enable_credit d s) = units s. Proof. reflexivity. Qed.
+Lemma tc_touch d s t : tc (touch d s t) = tc s. Proof. reflexivity. Qed.
+Lemma tc_touch_if b d s t : tc (touch_if b d s t) = tc s. Proof. destruct b; reflexivity. Qed.
 Global Hint Rewrite units_set_credit units_set_flag units_set_fp units_set_now units_set_timers units_set_game
-  units_set_audit units_with_audit units_join_game units_reset_timeouts : proj.
+  units_set_audit units_with_audit units_join_game units_reset_timeouts units_set_pexp units_touch units_touch_if
+  units_enable_credit tc_touch tc_touch_if : proj.
 
 Ltac bd :=
   repeat match goal with
@@ -172,7 +179,7 @@ Lemma advance_inv d s t : d_okb d = true -> Inv d s -> Inv d (advance d s t).
 Proof.
   intros Hok [H0 Hmax]. apply d_okb_elim in Hok as (Hupg & _ & Hm & _).
   unfold advance.
-  assert (I1 : Inv d (if due (dfrac s) t then set_timers (clear_frac d s) None (dall s) else s)).
+  assert (I1 : Inv d (if due (dfrac s) t then set_timers (touch d (clear_frac d s) (dl (dfrac s))) None (dall s) else s)).
   { destruct (due (dfrac s) t); [|split; auto].
     unfold Inv, clear_frac. autorewrite with proj.
     pose proof (Z.mod_pos_bound (units s) (d_upg d) Hupg).
@@ -223,6 +230,46 @@ Proof.
   - destruct (affordable d s); auto. apply iter_inv; auto. intros x Hx. apply paid_join_inv; auto.
 Qed.
 
+Lemma Inv_ext d s s' : units s' = units s -> Inv d s -> Inv d s'.
+Proof. intros E [A B]. unfold Inv. rewrite E. auto. Qed.
+
+Lemma iter_join_units n : forall s, units (iter_st n join_game s) = units s /\ tc (iter_st n join_game s) = tc s.
+Proof. induction n as [|n IH]; intros s; cbn [iter_st]; [auto|]. destruct (IH (join_game s)) as [A B]. rewrite A, B. auto. Qed.
+
+Lemma held_approve_units d s n : units (fst (held_approve d s n)) = units s.
+Proof.
+  unfold held_approve. destruct n as [|n]; [reflexivity|].
+  destruct (ingame s).
+  - destruct (game_full s); [reflexivity|]. destruct (fp s || affordable d s); [|reflexivity].
+    cbn [fst]. apply iter_join_units.
+  - destruct (fp s); [reflexivity|]. destruct (affordable d s); reflexivity.
+Qed.
+
+Lemma pay_only_inv d s : d_okb d = true -> Inv d s -> Inv d (pay_only d s).
+Proof.
+  intros Hok [H0 Hmax]. apply d_okb_elim in Hok as (Hupg & _).
+  unfold pay_only, Inv. autorewrite with proj. split; [lia|]. intros Hp. specialize (Hmax Hp). lia.
+Qed.
+
+Lemma held_st_inv d s n w : d_okb d = true -> Inv d s -> Inv d (held_st d s n w).
+Proof.
+  intros Hok HI. unfold held_st.
+  assert (I1 : Inv d (fst (held_approve d s n))) by (eapply Inv_ext; [apply held_approve_units|exact HI]).
+  pose proof (advance_inv d _ (now (fst (held_approve d s n)) + w) Hok I1) as I2.
+  destruct (fp (advance d (fst (held_approve d s n)) (now (fst (held_approve d s n)) + w))); [exact I2|].
+  apply iter_inv; auto. intros x Hx. apply pay_only_inv; auto.
+Qed.
+
+Lemma power_on_inv d s t : d_okb d = true -> Inv d s -> Inv d (power_on d (Some s) t).
+Proof.
+  intros Hok [H0 Hmax]. apply d_okb_elim in Hok as (_ & _ & Hm & _).
+  unfold power_on. cbn [read_setting fp].
+  assert (A : 0 <= (if survives s t then units s else 0) /\
+              (0 < d_maxu d -> (if survives s t then units s else 0) <= d_maxu d)).
+  { destruct (survives s t); split; auto; lia. }
+  destruct (fp s); unfold Inv; autorewrite with proj; cbn [units]; exact A.
+Qed.
+
 Lemma apply_op_inv d s o : d_okb d = true -> Inv d s -> Inv d (apply_op d s o).
 Proof.
   intros Hok HI. pose proof (d_okb_elim d Hok) as (Hupg & HW & Hm & Ht & Hc & He).
@@ -242,19 +289,24 @@ Proof.
     destruct ((cball s + 1 =? 2) && negb (fp s) && negb (flag s)); unfold Inv; autorewrite with proj; exact HI.
   - destruct (ingame s); auto. apply end_game_inv; auto.
   - exact HI.
-  - exact HI.
+  - destruct (fp s); exact HI.
   - exact HI.
   - exact HI.
   - unfold Inv, clear_all. autorewrite with proj. split; lia.
   - exact HI.
   - apply burst_st_inv; auto.
+  - apply power_on_inv; auto.
+  - apply held_st_inv; auto.
 Qed.
 
 Lemma step_inv d s o : d_okb d = true -> Inv d s -> Inv d (step d s o).
 Proof. intros Hok HI. unfold step. apply advance_inv; auto. apply apply_op_inv; auto. Qed.
 
 Lemma init_inv d : d_okb d = true -> Inv d (init d).
-Proof. intros Hok. apply d_okb_elim in Hok as (_ & _ & Hm & _). unfold Inv, init. cbn [units]. lia. Qed.
+Proof.
+  intros Hok. apply d_okb_elim in Hok as (_ & _ & Hm & _). unfold Inv, init, power_on. cbn [read_setting fp].
+  destruct (d_boot_fp d); autorewrite with proj; cbn [units]; lia.
+Qed.
 
 Lemma states_inv d : d_okb d = true -> forall ops s, Inv d s -> Forall (Inv d) (states_from d s ops).
 Proof.
@@ -288,14 +340,14 @@ Proof.
   intros Hfp Hle Hpos Hfull. assert (A : affordable d s = true) by (unfold affordable; apply Z.leb_le; lia).
   cbn zeta. cbn [apply_op]. unfold start_st, players. destruct (ingame s) eqn:Eg.
   - rewrite (Hfull eq_refl). unfold add_player. rewrite Hfp, A.
-    autorewrite with proj. cbn [ingame npl a_paid a_coins a_earn set_credit with_audit set_audit join_game set_game].
+    autorewrite with proj. cbn [ingame npl a_paid a_coins a_earn set_credit with_audit set_audit join_game set_game touch set_pexp].
     repeat split; lia.
   - rewrite Hfp, A. unfold add_player.
     set (s0 := set_timers (set_credit (set_game s true 0 0 0) (units s) 0) None None).
     assert (F0 : fp s0 = false) by exact Hfp.
     assert (A0 : affordable d s0 = true) by exact A.
     rewrite F0, A0.
-    cbn [ingame npl a_paid a_coins a_earn units tc set_credit with_audit set_audit join_game set_game set_timers s0].
+    cbn [ingame npl a_paid a_coins a_earn units tc set_credit with_audit set_audit join_game set_game set_timers s0 touch set_pexp].
     cbn [Z.eqb]. repeat split; lia.
 Qed.
 
@@ -371,6 +423,37 @@ Proof.
   destruct (IH (f s)) as [A B]. destruct (Hf s) as [C D]. split; congruence.
 Qed.
 
+Lemma pay_only_audit d s : a_coins (pay_only d s) = a_coins s /\ a_earn (pay_only d s) = a_earn s.
+Proof.
+  split.
+  - change (a_coins s + 0 = a_coins s). lia.
+  - change (a_earn s + 0 = a_earn s). lia.
+Qed.
+
+Lemma held_approve_audit d s n :
+  a_coins (fst (held_approve d s n)) = a_coins s /\ a_earn (fst (held_approve d s n)) = a_earn s.
+Proof.
+  unfold held_approve. destruct n as [|n]; [auto|].
+  destruct (ingame s).
+  - destruct (game_full s); [auto|]. destruct (fp s || affordable d s); [|auto].
+    cbn [fst]. apply (iter_audit (S n) join_game (fun x => conj eq_refl eq_refl) s).
+  - destruct (fp s); [split; reflexivity|]. destruct (affordable d s); split; reflexivity.
+Qed.
+
+Lemma held_st_audit d s n w : a_coins (held_st d s n w) = a_coins s /\ a_earn (held_st d s n w) = a_earn s.
+Proof.
+  unfold held_st. destruct (held_approve_audit d s n) as [A B].
+  set (s1 := fst (held_approve d s n)) in *.
+  destruct (audit_advance d s1 (now s1 + w)) as [C D].
+  destruct (fp (advance d s1 (now s1 + w))); [split; congruence|].
+  destruct (iter_audit (snd (held_approve d s n)) (pay_only d) (pay_only_audit d) (advance d s1 (now s1 + w))) as [P Q].
+  split; congruence.
+Qed.
+
+Lemma add_units_audit d s n t :
+  a_coins (add_units d s n t) = a_coins s /\ a_earn (add_units d s n t) = a_earn s.
+Proof. unfold add_units, touch_if. destruct (add_doit d s); split; reflexivity. Qed.
+
 Lemma audit_apply d s o acc :
   a_coins s = Z.of_nat (length acc) -> a_earn s = sumZ acc ->
   a_coins (apply_op d s o) = Z.of_nat (length (ledger_step d s o acc)) /\
@@ -378,15 +461,16 @@ Lemma audit_apply d s o acc :
 Proof.
   intros Hc He. destruct o; cbn [apply_op ledger_step].
   - destruct (fp s); auto. destruct (nth_error (d_coin_units d) k); auto.
-    cbn [length sumZ fold_right]. split.
-    + change (a_coins s + 1 = Z.of_nat (S (length acc))). lia.
-    + change (a_earn s + nth k (d_coin_ticks d) 0 = nth k (d_coin_ticks d) 0 + sumZ acc). lia.
-  - destruct (fp s); auto. split.
-    + change (a_coins s + 0 = Z.of_nat (length acc)). lia.
-    + change (a_earn s + 0 = sumZ acc). lia.
-  - destruct (fp s); auto. destruct (nth_error (d_ev_units d) j); auto. split.
-    + change (a_coins s + 0 = Z.of_nat (length acc)). lia.
-    + change (a_earn s + 0 = sumZ acc). lia.
+    cbn [length sumZ fold_right]. destruct (add_units_audit d s z true) as [P Q]. split.
+    + change (a_coins (add_units d s z true) + 1 = Z.of_nat (S (length acc))). lia.
+    + change (a_earn (add_units d s z true) + nth k (d_coin_ticks d) 0 = nth k (d_coin_ticks d) 0 + sumZ acc). lia.
+  - destruct (fp s); auto. destruct (add_units_audit d s (d_upg d) false) as [P Q]. split.
+    + change (a_coins (add_units d s (d_upg d) false) + 0 = Z.of_nat (length acc)). lia.
+    + change (a_earn (add_units d s (d_upg d) false) + 0 = sumZ acc). lia.
+  - destruct (fp s); auto. destruct (nth_error (d_ev_units d) j); auto.
+    destruct (add_units_audit d s z false) as [P Q]. split.
+    + change (a_coins (add_units d s z false) + 0 = Z.of_nat (length acc)). lia.
+    + change (a_earn (add_units d s z false) + 0 = sumZ acc). lia.
   - apply start_st_audit; auto.
   - unfold end_game.
     destruct (negb (ingame s)); auto. destruct (cpl s <? npl s); auto.
@@ -395,7 +479,7 @@ Proof.
     + destruct (fp s); auto.
   - unfold end_game. destruct (ingame s); auto. destruct (fp s); auto.
   - auto.
-  - auto.
+  - destruct (fp s); auto.
   - auto.
   - auto.
   - auto.
@@ -406,6 +490,8 @@ Proof.
     + destruct (iter_audit (S n) join_game (fun x => conj eq_refl eq_refl) s) as [P Q]. rewrite P, Q. auto.
     + destruct (affordable d s); auto.
       destruct (iter_audit (S n) (paid_join d) (paid_join_audit d) s) as [P Q]. rewrite P, Q. auto.
+  - unfold power_on. cbn [read_setting fp]. destruct (fp s); auto.
+  - destruct (held_st_audit d s n w) as [P Q]. rewrite P, Q. auto.
 Qed.
 
 Lemma ledger_inv d : forall ops s acc,
@@ -421,7 +507,7 @@ Qed.
 Lemma earnings_equal_coins_l d ops :
   a_coins (final d (init d) ops) = Z.of_nat (length (ledger d (init d) ops [])) /\
   a_earn (final d (init d) ops) = sumZ (ledger d (init d) ops []).
-Proof. apply ledger_inv; reflexivity. Qed.
+Proof. apply ledger_inv; unfold init, power_on; cbn [read_setting fp]; destruct (d_boot_fp d); reflexivity. Qed.
 
 (* ---- balance formula (no maximum, no expiry, one tier epoch) ------------------------------------- *)
 Definition insert_all (d : dcfg) (s : st) (ns : list Z) : st := fold_left (fun s n => add_units d s n true) ns s.
@@ -460,7 +546,7 @@ Lemma coin_is_add_l d s k n : fp s = false -> nth_error (d_coin_units d) k = Som
 Proof. intros Hfp E. cbn [apply_op]. rewrite Hfp, E. split; reflexivity. Qed.
 
 (* ---- the unpatched cap is refuted; examples ------------------------------------------------------ *)
-Definition ex_cfg : cfg := mkCfg [2; 2; 8] [(4, 1); (16, 5)] 12 10060 30060 [4] false 3.
+Definition ex_cfg : cfg := mkCfg [2; 2; 8] [(4, 1); (16, 5)] 12 10060 30060 [4] false 3 3600000 8.
 
 Fixpoint iter {A} (n : nat) (f : A -> A) (x : A) : A := match n with O => x | S k => iter k f (f x) end.
 
@@ -478,7 +564,7 @@ Lemma cap_fixed_example :
   units (final d (init d) (repeat Service 11 ++ [Coin 2])) = d_maxu d /\ d_maxu d = 24.
 Proof. vm_compute. split; reflexivity. Qed.
 
-Definition ex_cfg0 : cfg := mkCfg [2; 8] [(4, 1); (16, 5); (40, 15)] 0 0 0 [] false 3.
+Definition ex_cfg0 : cfg := mkCfg [2; 8] [(4, 1); (16, 5); (40, 15)] 0 0 0 [] false 3 0 8.
 
 Lemma ex_formula :
   let d := derive ex_cfg0 in
